@@ -110,6 +110,7 @@ CHECKS.update({
 
 NOT_APPLICABLE = {
 }
+NOT_BUILT_REASON = 'no contract for this property is built in this revision (see DESIGN.md I.2); the property is not claimed'
 NOT_YET = [ 'C08', 'C09', 'C10', 'C13', 'C16', 'C17', 'C18', 'C19', 'C20']
 
 
@@ -123,7 +124,7 @@ def main():
     na = [dict(property_id=p, reason=r) for p, r in sorted(NOT_APPLICABLE.items())]
     for p in NOT_YET:
         if p not in CHECKS and p not in NOT_APPLICABLE:
-            na.append(dict(property_id=p, reason='not claimed yet: contracts for this property are not built in this revision (see DESIGN.md build order)'))
+            na.append(dict(property_id=p, reason=NOT_BUILT_REASON))
     man = dict(
         version=1,
         setup_cmd='python3 tools/setup.py',
